@@ -6,6 +6,7 @@ irispie.dates on the same request lines, canonical text compared exactly (class 
 Oracle: datetime / plain Python ranges, straight from the property statement.
 """
 from __future__ import annotations
+import re
 import datetime as dt
 import itertools
 
@@ -57,7 +58,11 @@ def show_period(p) -> str:
 
 def show_endpoint(e) -> str:
     if isinstance(e, D.ContextualPeriod):
-        return ("cs:" if e._resolve_from == "start_date" else "ce:") + str(e._offset)
+        # public face of a contextual end: str() is "<>.start", "<>.end+2", "<>.start-1"
+        m = re.fullmatch(r"<>\.(start|end)([+-]\d+)?", str(e))
+        if not m:
+            raise ValueError(f"unreadable contextual period {e!r}")
+        return ("cs:" if m.group(1) == "start" else "ce:") + str(int(m.group(2) or 0))
     return show_period(e)
 
 
@@ -81,11 +86,11 @@ def observe(s) -> str:
     except Exception as e:
         ln = err_kind(e)
     try:
-        r = s._serials
-        ser = "none" if r is None else "[" + ",".join(str(x) for x in r) + "]"
+        # the serials the span enumerates, through its public iteration (an unresolved span has none)
+        ser = "none" if s.needs_resolve else "[" + ",".join(str(x.serial) for x in s) + "]"
     except Exception as e:
         ser = err_kind(e)
-    return f"{show_endpoint(s._start)};{show_endpoint(s._end)};{s._step};{ln};{ser}"
+    return f"{show_endpoint(s.start)};{show_endpoint(s.end)};{s.step};{ln};{ser}"
 
 
 def span_op(s, ws):
@@ -558,7 +563,7 @@ def oracle_spans(ctx: Ctx, lines):
             x, y = ws[1], ws[2]
             want3 = (x if x != "-" else "cs:0", y if y != "-" else "ce:0", 1) if ws[0] == "span>>" else \
                     (y if y != "-" else "ce:0", x if x != "-" else "cs:0", -1)
-            got3 = (show_endpoint(s._start), show_endpoint(s._end), s._step)
+            got3 = (show_endpoint(s.start), show_endpoint(s.end), s.step)
             if got3 != want3:
                 ctx.fail("span-operator-construction", case, f"{x} {ws[0][4:]} {y} is the span {got3}, expected {want3}")
                 continue
@@ -571,17 +576,18 @@ def oracle_spans(ctx: Ctx, lines):
                         cs, ce = parse_endpoint(op.split()[1]), parse_endpoint(op.split()[2])
                         def resolved(e):
                             if isinstance(e, D.ContextualPeriod):
-                                return show_period((cs if e._resolve_from == "start_date" else ce) + e._offset)
+                                tag, off = show_endpoint(e).split(":")
+                                return show_period((cs if tag == "cs" else ce) + int(off))
                             return show_period(e)
-                        want3 = (resolved(s._start), resolved(s._end), s._step)
+                        want3 = (resolved(s.start), resolved(s.end), s.step)
                         same_class = want3[0][0] == want3[1][0]
                         r = s.resolve(D.ResolutionContext(cs, ce))
-                        got3 = (show_endpoint(r._start), show_endpoint(r._end), r._step)
+                        got3 = (show_endpoint(r.start), show_endpoint(r.end), r.step)
                         if same_class and got3 != want3:
                             ctx.fail("span-resolve", case, f"after {op}: resolved to {got3}, expected {want3}")
                             break
                     before = None
-                    if not s.needs_resolve and s._step != 0 and type(s._start) is type(s._end):
+                    if not s.needs_resolve and s.step != 0 and type(s.start) is type(s.end):
                         before = [p.serial for p in s]
                     s, _ = span_op(s, op.split())
                     if before is not None and op.split()[0] in ("sh", "add", "sub"):
@@ -590,41 +596,41 @@ def oracle_spans(ctx: Ctx, lines):
                             ctx.fail("span-shift", case, f"after {op}: elements are not shifted by {k}")
                     if before is not None and op.split()[0] == "rev":
                         now = [p.serial for p in s]
-                        if before and (before[-1] == s._start.serial) and now != before[::-1]:
+                        if before and (before[-1] == s.start.serial) and now != before[::-1]:
                             ctx.fail("span-reverse", case, "reversal does not enumerate the reversed sequence")
                         r2 = s.reversed()
-                        if (r2._start, r2._end, r2._step) != (s._end, s._start, -s._step):
+                        if (r2.start, r2.end, r2.step) != (s.end, s.start, -s.step):
                             ctx.fail("span-reverse", case, "reversed() is not the mirror image")
             except Exception:
                 break
             # functional forms never modify or alias the span they are applied to (resolved or open-ended alike)
             try:
-                snap = (show_endpoint(s._start), show_endpoint(s._end), s._step)
+                snap = (show_endpoint(s.start), show_endpoint(s.end), s.step)
                 r = s.reversed()
                 c = s.copy()
                 c.shift(2); c.reverse()
                 plus = s + 1
                 ok = r is not s and c is not s and plus is not s
-                ok = ok and (show_endpoint(s._start), show_endpoint(s._end), s._step) == snap
-                ok = ok and (show_endpoint(r._start), show_endpoint(r._end), r._step) == (snap[1], snap[0], -snap[2])
+                ok = ok and (show_endpoint(s.start), show_endpoint(s.end), s.step) == snap
+                ok = ok and (show_endpoint(r.start), show_endpoint(r.end), r.step) == (snap[1], snap[0], -snap[2])
                 if not ok:
                     ctx.fail("span-functional-form-mutates", case, f"after {op}: reversed()/copy()/+ changed or aliased the span: was {snap}, now "
-                             f"{(show_endpoint(s._start), show_endpoint(s._end), s._step)}")
+                             f"{(show_endpoint(s.start), show_endpoint(s.end), s.step)}")
                     break
             except Exception:
                 pass
-            if not s.needs_resolve and not isinstance(s._start, D.ContextualPeriod) and not isinstance(s._end, D.ContextualPeriod) \
-                    and type(s._start) is not type(s._end):
+            if not s.needs_resolve and not isinstance(s.start, D.ContextualPeriod) and not isinstance(s.end, D.ContextualPeriod) \
+                    and type(s.start) is not type(s.end):
                 # mixing frequencies is rejected rather than silently compared: no operation may hand out a resolved span
                 # whose ends have different frequencies
-                ctx.fail("mixed-frequency-not-rejected", case, f"after {op}: resolved span from {s._start!r} to {s._end!r}")
+                ctx.fail("mixed-frequency-not-rejected", case, f"after {op}: resolved span from {s.start!r} to {s.end!r}")
                 break
-            if s.needs_resolve or s._step == 0 or type(s._start) is not type(s._end):
+            if s.needs_resolve or s.step == 0 or type(s.start) is not type(s.end):
                 continue
-            want = pyrange_list(s._start.serial, s._end.serial, s._step)
+            want = pyrange_list(s.start.serial, s.end.serial, s.step)
             try:
                 got = [p.serial for p in s]
-                ok = got == want and len(s) == len(want) and all(type(p) is type(s._start) for p in s)
+                ok = got == want and len(s) == len(want) and all(type(p) is type(s.start) for p in s)
                 ok = ok and all(s[i].serial == want[i] for i in range(len(want)))
                 ok = ok and all(s[-i].serial == want[-i] for i in range(1, len(want) + 1))
                 if want:
@@ -632,7 +638,7 @@ def oracle_spans(ctx: Ctx, lines):
                 if not ok:
                     ctx.fail("span-enumeration", case, f"after {op}: iter={got[:8]} expected={want[:8]} len={len(s)}")
                 if len(want) >= 2:
-                    ctx.nontriv(("span", s._step, len(want), op.split()[0] if op else "init"))
+                    ctx.nontriv(("span", s.step, len(want), op.split()[0] if op else "init"))
             except Exception as e:
                 ctx.fail("span-enumeration", case, f"after {op}: {e!r}")
 
